@@ -66,7 +66,7 @@ struct RunData {
 };
 // Seeded inputs for a program shape.  `nreq`<=0 picks n from the seed.
 void make_inputs(const ProgMeta &meta, uint64_t dataseed, int nreq, RunData &d);
-enum RunMode { RUN_EXEC = 0, RUN_EMULATE = 1, RUN_BACKUP = 2 };
+enum RunMode { RUN_EXEC = 0, RUN_EMULATE = 1, RUN_BACKUP = 2, RUN_DIRECT = 3 };  // DIRECT: call the entry point itself, as orcc-generated wrappers do
 // Runs with an executor attached to `prog` (prog != null) or a code-only
 // executor on `code`.  Outputs are left in `d`.
 void run_with(OrcProgram *prog, OrcCode *code, const ProgMeta &meta, RunMode mode, RunData &d);
